@@ -66,22 +66,20 @@ def i16 (b : Bytes) : Int := if Biff.u16 b < 32768 then (Biff.u16 b : Int) else 
 
 /-- `parse_sheet_metadata` (BoundSheet8): `(lbPlyPos, Sheet)`; NUL characters are removed from the name -/
 def parseSheetMetadata (data : Bytes) (biff8 : Bool) : Res (Nat × Sheet Text) :=
-  if data.length < 5 then .panic "parse_sheet_metadata: read_u32(r.data) / r.data[4]"
+  if data.length < 6 then .err s!"Len:BoundSheet8:6:{data.length}"
   else
     let hs := byteAt data 4 &&& Gen.xlsVisMask
     match Gen.xlsVisTable.lookup hs with
     | none => .err (unrec "BoundSheet8:hsState" (toString hs))
     | some vis =>
-      if data.length < 6 then .panic "parse_sheet_metadata: r.data[5]"
-      else
-        match Gen.xlsKindTable.lookup (byteAt data 5) with
-        | none => .err (unrec "BoundSheet8:dt" (toString (byteAt data 5)))
-        | some typ =>
-          match Biff.parseShortString (data.drop 6) biff8 with
-          | .ok name => .ok (Biff.u32 data, ⟨name.filter (· != 0), typ, vis⟩)
-          | .err e => .err e
-          | .panic e => .panic e
-          | .outOfFuel => .outOfFuel
+      match Gen.xlsKindTable.lookup (byteAt data 5) with
+      | none => .err (unrec "BoundSheet8:dt" (toString (byteAt data 5)))
+      | some typ =>
+        match Biff.parseShortString (data.drop 6) biff8 with
+        | .ok name => .ok (Biff.u32 data, ⟨name.filter (· != 0), typ, vis⟩)
+        | .err e => .err e
+        | .panic e => .panic e
+        | .outOfFuel => .outOfFuel
 
 /-- `read_unicode_string_no_cch(encoding, buf, len, s)`: flag byte, then `len` characters of 1 or 2 bytes.
     `wideBytes = true` is the code after fix D35 (`2 * len` bytes for an uncompressed string);
@@ -101,7 +99,7 @@ def readUnicodeStringNoCchD35 : Bytes → Nat → Res Text := readUnicodeStringN
 
 /-- `parse_bof`: `true` = `Biff::Biff8` (all that the string readers distinguish) -/
 def parseBof (data : Bytes) : Res Bool :=
-  if data.length < 2 then .panic "parse_bof: r.data[..2]"
+  if data.length < 2 then .err s!"Len:BOF:2:{data.length}"
   else
     let v := Biff.u16 data
     let dt := if data.length ≥ 4 then Biff.u16 (data.drop 2) else 0
@@ -113,32 +111,30 @@ def parseBof (data : Bytes) : Res Bool :=
     `nameReader` = `read_unicode_string_no_cch`. -/
 def parseLblWith (nameReader : Bytes → Nat → Res Text) (parseDn : Bytes → Res (Option Nat × Text))
     (data : Bytes) : Res (Text × Option Nat × Text) :=
-  if data.length < 6 then .panic "Lbl: r.data[3] / read_u16(&r.data[4..])"
+  if data.length < 15 then .err s!"Len:Lbl:15:{data.length}"
   else
     let cch := byteAt data 3
     let cce := Biff.u16 (data.drop 4)
-    if data.length < 14 then .panic "Lbl: &r.data[14..]"
+    let nameLen := if byteAt data 14 % 2 = 1 then 2 * cch else cch
+    if data.length < max (15 + nameLen) cce then .err s!"Len:Lbl:{max (15 + nameLen) cce}:{data.length}"
     else
       match nameReader (data.drop 14) cch with
       | .ok name =>
-        if data.length < cce then .panic "Lbl: r.data.len() - cce"
-        else
-          match parseDn (data.drop (data.length - cce)) with
-          | .ok f => .ok (name, f)
-          | .err e => .err e
-          | .panic e => .panic e
-          | .outOfFuel => .outOfFuel
+        match parseDn (data.drop (data.length - cce)) with
+        | .ok f => .ok (name, f)
+        | .err e => .err e
+        | .panic e => .panic e
+        | .outOfFuel => .outOfFuel
       | .err e => .err e
       | .panic e => .panic e
       | .outOfFuel => .outOfFuel
 
-/-- `r.data[2..].chunks(6).take(cxti).map(|xti| Xti { …, itab_first: read_i16(&xti[2..4]), … })`:
-    the `itab_first` of every entry; a last chunk shorter than 6 bytes panics when it is reached -/
+/-- `r.data[2..].chunks_exact(6).take(cxti).map(|xti| Xti { …, itab_first: read_i16(&xti[2..4]), … })`:
+    the `itab_first` of every entry; a trailing chunk shorter than 6 bytes is ignored (since e1c36a3) -/
 def xtiLoop : Nat → Bytes → Res (List Int)
   | 0, _ => .ok []
   | n + 1, d =>
-    if d.isEmpty then .ok []
-    else if d.length < 6 then .panic "ExternSheet: short XTI"
+    if d.length < 6 then .ok []
     else
       match xtiLoop n (d.drop 6) with
       | .ok l => .ok (i16 (d.drop 2) :: l)
@@ -148,7 +144,7 @@ def xtiLoop : Nat → Bytes → Res (List Int)
 
 /-- the ExternSheet arm (0x0017) -/
 def parseExternSheet (data : Bytes) : Res (List Int) :=
-  if data.length < 2 then .panic "ExternSheet: read_u16(r.data)"
+  if data.length < 2 then .err s!"Len:ExternSheet:2:{data.length}"
   else xtiLoop (Biff.u16 data) (data.drop 2)
 
 /-- the state the globals loop accumulates -/
@@ -173,18 +169,15 @@ def liftUnit {α β : Type} (r : Res α) (k : α → Res β) : Res β :=
 /-- one iteration of `for record in records { match r.typ { … } }`; `none` = `break` (EOF record) -/
 def xlsStep (nameReader : Bytes → Nat → Res Text) (parseDn : Bytes → Res (Option Nat × Text))
     (st : XlsSt) (r : Biff.Rec) : Res (Option XlsSt) :=
-  if r.typ = 0x002F then
-    if r.data.length < 2 then .panic "FilePass: read_u16" else
-    if Biff.u16 r.data ≠ 0 then .err "Password" else .ok (some st)
+  if r.typ = 0x002F then .err "Password"
   else if r.typ = 0x0042 then
-    if r.data.length < 2 then .panic "CodePage: read_u16" else
+    if r.data.length < 2 then .err s!"Len:CodePage:2:{r.data.length}" else
     if Biff.u16 r.data = 1200 then .ok (some st) else .err "unmodelled:codepage"
   else if r.typ = 0x0022 then
-    if r.data.length < 2 then .panic "Date1904: read_u16" else
+    if r.data.length < 2 then .err s!"Len:Date1904:2:{r.data.length}" else
     .ok (some (if Biff.u16 r.data = 1 then { st with is1904 := true } else st))
   else if r.typ = 0x041E then
-    if r.data.length < 4 then .err s!"Len:format:4:{r.data.length}" else
-    if r.data.length < 5 then .panic "parse_format: r.data[4]" else .ok (some st)
+    if r.data.length < 5 then .err s!"Len:format:5:{r.data.length}" else .ok (some st)
   else if r.typ = 0x00E0 then
     if r.data.length < 4 then .err s!"Len:xf:4:{r.data.length}" else .ok (some st)
   else if r.typ = 0x0085 then
@@ -233,12 +226,12 @@ def resolveName (xtis : List Int) (sheets : List (Nat × Sheet Text)) : Text × 
   | (n, some i, f) => (n, xtiSheet xtis sheets i ++ 33 :: f)
 
 /-- `parse_workbook` as far as the metadata goes. The per-sheet loop is represented by its first step only
-    (`&stream[pos..]` panics for an offset beyond the stream); the cell records of the sheets belong to C02. -/
+    (`stream.get(pos..)`: an offset beyond the stream is an `EoStream` error); the cell records of the sheets belong to C02. -/
 def parseWorkbookXlsWith (nameReader : Bytes → Nat → Res Text) (parseDn : Bytes → Res (Option Nat × Text))
     (stream : Bytes) : Res (Workbook Text) :=
   match xlsGlobals nameReader parseDn (stream.length + 1) stream {} with
   | .ok st =>
-    if st.sheets.any (fun s => decide (stream.length < s.1)) then .panic "parse_workbook: &stream[pos..]"
+    if st.sheets.any (fun s => decide (stream.length < s.1)) then .err "EoStream:sheet substream offset"
     else .ok ⟨st.sheets.map (·.2), st.names.map (resolveName st.xtis st.sheets), st.is1904⟩
   | .err e => .err e
   | .panic e => .panic e
@@ -498,6 +491,8 @@ inductive Ev where
   | text (s : String)
   | end_ (name : String)
   | other
+  /-- `Event::CData`: the content of a `<![CDATA[…]]>` section -/
+  | cdata (s : String)
   deriving Repr, DecidableEq
 
 /-- the text after the first `:` -/
@@ -576,6 +571,9 @@ structure XlsxCfg where
   skipExt : Bool
   /-- a `workbookPr` without `date1904` leaves the flag alone (fix 4dbff9e); before, it reset the flag to `false` -/
   keepFlag : Bool
+  /-- CDATA sections inside `<definedName>` are part of its text (the fix completing 31ef0e8, finding C16-d); before,
+      the inner loop ignored `Event::CData` -/
+  cdataNames : Bool
 
 /-- the value of `self.is_1904` after a `workbookPr` start tag -/
 def date1904Upd (keep : Bool) (old : Bool) (attrs : List (String × String)) : Bool :=
@@ -606,6 +604,9 @@ def xlsxLoopWith (cfg : XlsxCfg) (rels : List (String × String)) : List Ev → 
     | some (nm, q, val) =>
       match ev with
       | .text t => xlsxLoopWith cfg rels rest { st with cur := some (nm, q, val ++ t) }
+      | .cdata t =>
+        if cfg.cdataNames then xlsxLoopWith cfg rels rest { st with cur := some (nm, q, val ++ t) }
+        else xlsxLoopWith cfg rels rest st
       | .end_ n =>
         if n = q then xlsxLoopWith cfg rels rest { st with names := st.names ++ [(nm, val)], cur := none }
         else xlsxLoopWith cfg rels rest st
@@ -629,13 +630,13 @@ def xlsxLoopWith (cfg : XlsxCfg) (rels : List (String × String)) : List Ev → 
       | .end_ n => if localName n = "workbook" then .ok st else xlsxLoopWith cfg rels rest st
       | _ => xlsxLoopWith cfg rels rest st
 
-/-- the code as it is (after fixes D22 60648c6 and 4dbff9e): `local_name() == b"workbookPr"`, `extLst` skipped,
-    the flag assigned only when the attribute is present -/
-def cfgNow : XlsxCfg := ⟨fun n => localName n == "workbookPr", true, true⟩
+/-- the code as it is (after fixes D22 60648c6, 4dbff9e and 5d9aab9): `local_name() == b"workbookPr"`, `extLst` skipped,
+    the flag assigned only when the attribute is present, CDATA counted as defined-name text -/
+def cfgNow : XlsxCfg := ⟨fun n => localName n == "workbookPr", true, true, true⟩
 /-- between 60648c6 and 4dbff9e (the regression, finding C16-b): local name, no skipping, flag reset -/
-def cfgD22Fix : XlsxCfg := ⟨fun n => localName n == "workbookPr", false, false⟩
+def cfgD22Fix : XlsxCfg := ⟨fun n => localName n == "workbookPr", false, false, false⟩
 /-- the pinned snapshot (ledger D22): `e.name() == b"workbookPr"` -/
-def cfgPinned : XlsxCfg := ⟨fun n => n == "workbookPr", false, false⟩
+def cfgPinned : XlsxCfg := ⟨fun n => n == "workbookPr", false, false, false⟩
 
 def xlsxLoop := xlsxLoopWith cfgNow
 def xlsxLoopD22 := xlsxLoopWith cfgPinned
@@ -653,6 +654,10 @@ def readWorkbookXlsx (rels : List (String × String)) (evs : List Ev) : Res (Wor
 
 def readWorkbookXlsxD22 (rels : List (String × String)) (evs : List Ev) : Res (Workbook String × List (List Char)) :=
   xlsxFinish (xlsxLoopD22 rels evs {})
+
+/-- the reader before 5d9aab9 (finding C16-d): CDATA sections inside `<definedName>` ignored -/
+def readWorkbookXlsxNoCData (rels : List (String × String)) (evs : List Ev) : Res (Workbook String × List (List Char)) :=
+  xlsxFinish (xlsxLoopWith ⟨fun n => localName n == "workbookPr", true, true, false⟩ rels evs {})
 
 /-- the reader between the D22 fix and 4dbff9e (finding C16-b) -/
 def readWorkbookXlsxD22Fix (rels : List (String × String)) (evs : List Ev) : Res (Workbook String × List (List Char)) :=
